@@ -22,6 +22,7 @@ def gen(rng):
         nested = {'n0': alts(['n0'], ['NA', '"w"']) if rng.random() < 0.5 else 'NA | "w" NA'}
         mod_names.append('n0')
     mod = {n: alts(mod_names, mterms) for n in mod_rules}
+    mods = {n: (rng.choice(['', '', '?', '!', '?']) if not n.startswith('_') else rng.choice(['', '!'])) for n in mod_rules}      # ?/! modifiers of the module's definitions
     import_template = use_template and rng.random() < 0.6
     local_template = use_template and not import_template and rng.random() < 0.7
     term_chain = rng.random() < 0.3          # a module terminal defined through another one; both imported; the inner one %extend-ed
@@ -43,14 +44,14 @@ def gen(rng):
     if cand and rng.random() < 0.4:
         main[cand[0]] = '"q"'; main['start'] += ' | ' + cand[0]
     override = extend = None
-    if rng.random() < 0.25:
-        override = (rng.choice(imported), alts(extra_names, terms))
+    if rng.random() < 0.3:
+        override = (rng.choice(imported), alts(extra_names, terms), rng.choice(['', '?', '!']))     # the overriding definition brings its own modifiers
     if rng.random() < 0.25:
         extend = (rng.choice([i for i in imported if not override or i != override[0]] or imported), rng.choice(['"z"', 'A "z"', 'B']))
         if override and extend[0] == override[0]:
             extend = None
     files = {}
-    modtext = ('%import .n.n0\n' if use_nested else '') + ''.join('%s: %s\n' % kv for kv in mod.items()) + 'MA: "a"\n' + ('MB: MA "b"\n' if term_chain else '')
+    modtext = ('%import .n.n0\n' if use_nested else '') + ''.join('%s%s: %s\n' % (mods.get(k, ''), k, v) for k, v in mod.items()) + 'MA: "a"\n' + ('MB: MA "b"\n' if term_chain else '')
     files['m.lark'] = modtext
     if use_nested:
         files['n.lark'] = ''.join('%s: %s\n' % kv for kv in nested.items()) + 'NA: "n"\n'
@@ -64,7 +65,7 @@ def gen(rng):
         if rng.random() < 0.7:
             tail += '%extend MA: "z"\n'
     if override:
-        tail += '%%override %s: %s\n' % (rename[override[0]], override[1])
+        tail += '%%override %s%s: %s\n' % (override[2], rename[override[0]], override[1])
     if extend:
         tail += '%%extend %s: %s\n' % (rename[extend[0]], extend[1])
     maintext = imports + ''.join('%s: %s\n' % kv for kv in main.items()) + tail + 'A: "a"\nB: "b"\n%ignore " "\n'
@@ -79,26 +80,26 @@ def gen(rng):
         if n in mod or n + '{x}' in mod: return ('_modq__' + n[1:]) if n.startswith('_') else 'modq__' + n
         return n
     def sub(body): return re.sub(r'\b(_?[a-zA-Z][_a-zA-Z0-9]*)\b', lambda m: m.group(1) if m.group(1) == 'x' else mangle(m.group(1)), body)
-    bodies = {}
+    bodies, imods = {}, {}
     for n, b in mod.items():
         if n == 'tp{x}':
             bodies[('tp' if import_template else 'modq__tp') + '{x}'] = sub(b)
         else:
-            bodies[mangle(n)] = sub(b)
+            bodies[mangle(n)] = sub(b); imods[mangle(n)] = mods.get(n, '')
     for n, b in nested.items():
         bodies[mangle(n)] = sub(b)
     if override:
-        bodies[rename[override[0]]] = override[1]
+        bodies[rename[override[0]]] = override[1]; imods[rename[override[0]]] = override[2]
     if extend:
         bodies[rename[extend[0]]] += ' | ' + extend[1]
     if term_chain:
         inl_terms = 'MA: "a"%s\nMB: MA "b"\n' % (' | "z"' if '%extend MA' in tail else '')
     else:
         inl_terms = 'MOD__MA: "a"\n'
-    inl = ''.join('%s: %s\n' % kv for kv in bodies.items()) + inl_terms + ('MOD__NA: "n"\n' if use_nested else '')
+    inl = ''.join('%s%s: %s\n' % (imods.get(k, ''), k, v) for k, v in bodies.items()) + inl_terms + ('MOD__NA: "n"\n' if use_nested else '')
     # definitions of the module that nothing reaches are dropped by lark (_remove_unused); in the inlined text they are harmless
     inltext = inl + ''.join('%s: %s\n' % kv for kv in main.items()) + 'A: "a"\nB: "b"\n%ignore " "\n'
-    return {'files': files, 'main': maintext, 'inlined': inltext, 'features': {'template': use_template, 'local_template_same_name': local_template, 'terminal_chain': term_chain, 'nested': use_nested, 'override': bool(override), 'extend': bool(extend), 'renames': sum(1 for k, v in rename.items() if k != v)}}
+    return {'files': files, 'main': maintext, 'inlined': inltext, 'features': {'template': use_template, 'local_template_same_name': local_template, 'terminal_chain': term_chain, 'nested': use_nested, 'override': bool(override), 'override_changes_modifiers': bool(override and override[2] != mods.get(override[0], '')), 'extend': bool(extend), 'renames': sum(1 for k, v in rename.items() if k != v)}}
 
 
 def norm_label(s):
@@ -125,6 +126,8 @@ def _case(seed):
     from lark.exceptions import GrammarError, UnexpectedInput, LarkError
     rng = random.Random(seed)
     c = gen(rng)
+    kat = rng.random() < 0.3
+    c['features']['keep_all_tokens'] = kat
     d = tempfile.mkdtemp(prefix='larkverif_c17_')
     try:
         for fn, txt in c['files'].items():
@@ -135,7 +138,7 @@ def _case(seed):
                 kw = dict(parser='earley', ambiguity='explicit') if parser == 'earley' else dict(parser='lalr')
                 try:
                     with guarded(8):
-                        res[(name, parser)] = Lark(txt, source_path=os.path.join(d, 'main.lark'), maybe_placeholders=False, **kw)
+                        res[(name, parser)] = Lark(txt, source_path=os.path.join(d, 'main.lark'), maybe_placeholders=False, keep_all_tokens=kat, **kw)
                 except (GrammarError, LarkError) as e:
                     res[(name, parser)] = ('ERR', type(e).__name__, str(e)[:120])
                 except Timeout:
